@@ -172,7 +172,7 @@ def _function_over_two_vars(repr_func, raw_func, x, y, out=None, out_like=None, 
         if not out_like.signed and signed:
             raise ValueError('Signed addition can not be stored in unsigned `out_like` object!')
         signed = None
-        n_frac = None
+        n_frac = out_like.n_frac    # all sizes come from `out_like`; its n_frac lets the raw (exact) calculation be used
         n_int = None
         config = None
 
